@@ -221,7 +221,7 @@ def handleK (x : Sexp) : Option String :=
     let cc ← catch? c
     let cd ← hexOf? code
     let p ← parse? pr
-    pure (showIsComplete (isComplete cc cd p) ++ s!" indent={lastIndent cd} spec={specIndent cd}")
+    pure (showIsComplete (isComplete cc cd p) ++ (if lastIndent cd = specIndent cd then "" else " SPEC-MISMATCH"))
   | .list [.atom "croot", code] => do
     let cd ← hexOf? code
     pure ("ok " ++ Hex.ofBytes (complRoot cd))
@@ -237,7 +237,7 @@ def handleK (x : Sexp) : Option String :=
   | .list [.atom "hk", .list evs] => do
     let es ← evs.mapM hkEv?
     let f := sessRun {} es
-    pure s!"up={if f.up then 1 else 0} n={f.shutdowns} alive={if f.hkAlive then 1 else 0} cnt={f.taskCnt} max={f.taskCntMax} stdout={f.stdoutSent}"
+    pure s!"up={if f.up then 1 else 0} n={f.shutdowns} cnt={f.taskCnt} max={f.taskCntMax} stdout={f.stdoutSent}"
   | .list [.atom "conn", v, c, cs, oks, sigtab, infos] => do
     let vv ← validate? v
     let cc ← catch? c
